@@ -92,6 +92,21 @@ def programs(tier: str):
             for shape in forest_shapes(2):
                 k += 1
                 yield {"forest": label_forest(shape, [list(a), list(b)]), "order": "nd-first" if k % 2 else "d-first"}
+    # a block prepared inside the FIRST top-level block and entered elsewhere: as a later sibling
+    # (outside any scope), nested in a later sibling, or nested deeper inside the first block
+    for fk in ("ascope", "sscope", "updated"):
+        for fs in (1, 2, 5):
+            for pk in ("updated", "sscope", "ascope"):
+                for ps in (0, 1, 2):
+                    first = [fk, fs]
+                    prep = [pk, ps, "return", "in-first"]
+                    for mk in ("ascope", "updated"):
+                        for ms in (1, 2):
+                            k += 1
+                            order = "nd-first" if k % 2 else "d-first"
+                            yield {"forest": [{"l": first, "c": []}, {"l": [mk, ms], "c": [{"l": prep, "c": []}]}], "order": order}
+                            yield {"forest": [{"l": first, "c": [{"l": [mk, ms], "c": [{"l": prep, "c": []}]}]}], "order": order}
+                    yield {"forest": [{"l": first, "c": []}, {"l": prep, "c": []}], "order": "nd-first"}
     # ONE prepared ctx.updated(...) object entered twice, one after the other, inside different
     # enclosing blocks: every use sits on top of the block it is entered in
     for k1 in ("ascope", "sscope", "updated"):
@@ -179,6 +194,7 @@ def execute(program, ch: Chooser) -> Result:  # noqa: C901, PLR0915
 
     rt: dict[int, dict] = {}
     shared: dict = {}
+    in_first: list = []
 
     def build(b):
         kind, sidx = b["l"][0], b["l"][1]
@@ -236,6 +252,9 @@ def execute(program, ch: Chooser) -> Result:  # noqa: C901, PLR0915
                     rt[id(b)] = dict(shared["rt"])
                 rt[id(b)]["cm"] = shared["cm"]
                 stats["prep"] = True
+            elif len(b["l"]) > 3 and b["l"][3] == "in-first":
+                in_first.append(b)  # built later: inside the first top-level block (see run)
+                stats["prep"] = True
             elif len(b["l"]) > 3 and b["l"][3]:
                 rt[id(b)]["cm"] = build(b)  # built now, entered later
                 stats["prep"] = True
@@ -262,6 +281,12 @@ def execute(program, ch: Chooser) -> Result:  # noqa: C901, PLR0915
             soft2 = (soft_root or not in_scope) if kind == "updated" else False
 
             async def body():
+                if path == "" and i == 0:
+                    # context managers prepared INSIDE this first block, entered wherever their
+                    # block sits (a sibling scope, a nested one, outside): they sit on top of the
+                    # state current where they are entered, not where they were built
+                    for pb in in_first:
+                        rt[id(pb)]["cm"] = build(pb)
                 await run(b["c"], env2, True, soft2, here)
                 if ending == "raise":
                     raise BodyErr()
